@@ -45,7 +45,8 @@ def observe(tier):
               for g in GRAPHS for p in RPROGS for c in CACHES]
     cases += [[{"graph": g, "prog": p, "max_preempt": k, "sample": smp, "variant": v, "cache": c}]
               for v in ("terminology", "template") for g in GRAPHS for p in (PROGS if tier == "thorough" else ["dA_lA", "lC_dA_lC"]) for c in ("warm", "stale")]
-    n, files = par.replay_stream(cases, "harness.loader", os.path.join(d, "S"), shard=4000)
+    # one case is the exploration of all schedules of one (graph, program, cache): it may take minutes on a loaded machine
+    n, files = par.replay_stream(cases, "harness.loader", os.path.join(d, "S"), shard=4000, case_timeout=1800)
     return {"judge": [("JudgeLoader.tla", "JudgeLoader.cfg", files)], "tlc": tlc, "records": {"S": n},
             "explanation": "(1) TLC explores every interleaving of the PlusCal model OdmlLoader (table accesses, thread create/start/join, include recursion) for the listed "
                            "include graphs and caller programs against NoRaise/Transparent/SameCached/CacheSafe/Progress; (2) the real odml/terminology.py is run under a "
